@@ -609,9 +609,18 @@ def oracle_geomcomp(vols, cells, lines):
             if k in where:
                 return f'virtual volume {k} listed'
             continue
-        src = cells[origin[0][0] if origin else k]
-        want = f'm{int(src["mat"])}' + ('' if src['dens'] is None
-                                            else '_' + src['dens'])
+        head = origin[0][0] if origin else k
+        src = cells.get(head)
+        if src is None:
+            return (f'GEOMCOMP written although the provenance head {head} of '
+                    f'volume {k} is not a cell')
+        try:
+            number = int(src['mat'])
+        except ValueError:
+            return (f'GEOMCOMP written although the material token '
+                    f'{src["mat"]!r} of cell {head} is not a number')
+        want = f'm{number}' + ('' if src['dens'] is None
+                               else '_' + src['dens'])
         if where.get(k) != [want]:
             return f'volume {k}: lines {where.get(k)}, expected {want}'
     if any(k not in vols for k in where):
